@@ -7,9 +7,18 @@ import Lcapy.Props.C06
 namespace Lcapy.C06
 open Lcapy.Parser Lcapy.Spec.Netlist
 
+/-- the checked-out `_arg_format` does not (yet) brace a value because it contains `=` (finding C06-j); pinned:
+    breaks loudly when that repair lands, like `tie_theCfg` -/
+theorem printer_braces_equals_in_source : Gen.Grammar.printerBracesEquals = false := by decide
+
+theorem argFormatC_eq0 (cfg : PrinterCfg) (ds : List Char) (kws : List Str) (v : Str) :
+    argFormatC cfg ds kws v = argFormatC0 cfg ds kws v := by
+  simp [argFormatC, printer_braces_equals_in_source]
+
 theorem argFormatC_current (ds : List Char) (kws : List Str) (v : Str) :
     argFormatC ⟨false, false, false⟩ ds kws v = argFormat ds v := by
-  unfold argFormatC argFormat
+  rw [argFormatC_eq0]
+  unfold argFormatC0 argFormat
   by_cases h : v.head? = some '{' <;> simp [h]
 
 theorem fmtArgsC_current (ds : List Char) (kws : List Str) (a : List (Option Str)) :
@@ -34,7 +43,8 @@ theorem printCptC_current (g : Grammar) (c : Cpt) : printCptC ⟨false, false, f
 theorem arg_format_fixed_unquote (cfg : PrinterCfg) (hE : cfg.fixE = true) (ds : List Char) (kws : List Str) (v : Str) :
     unquote (argFormatC cfg ds kws v) = v := by
   have hbr : unquote ('{' :: (v ++ ['}'])) = v := by simp [unquote]
-  unfold argFormatC
+  rw [argFormatC_eq0]
+  unfold argFormatC0
   simp only [hE, Bool.true_and, Bool.not_true, Bool.false_and, Bool.false_eq_true, ↓reduceIte]
   split
   · exact hbr
@@ -74,7 +84,8 @@ theorem arg_format_fixed_not_keyword (cfg : PrinterCfg) (hA : cfg.fixA = true) (
     | true =>
       have := hk _ (by simpa using hc)
       simp at this
-  unfold argFormatC
+  rw [argFormatC_eq0]
+  unfold argFormatC0
   simp only [hA, Bool.true_and]
   split
   · exact hbr _
@@ -165,7 +176,8 @@ theorem fixes_change_nothing_else (cfg : PrinterCfg) (ds : List Char) (kws : Lis
   have h2' : (v.head? == some '"') = false := by simpa using h2
   have heq' : ¬ ('=' ∈ v) := by simpa using heq
   have hk' : ¬ (lower v ∈ kws) := by simpa using hk
-  unfold argFormatC argFormat
+  rw [argFormatC_eq0]
+  unfold argFormatC0 argFormat
   simp [hne, h1', h2', heq', hk', h1]
 
 example : okValue Gen.Grammar.delimiters "f(x, y) + 1".toList = true := by decide
